@@ -20,6 +20,7 @@ import (
 	"net/url"
 	"strings"
 	"sync"
+	"sync/atomic"
 	"time"
 
 	"github.com/fabiolb/fabio/config"
@@ -45,6 +46,9 @@ type SrvIn struct {
 	Kind  string `json:"kind"` // http | tcp | sni | grpc | inetaf
 	Work  []*int `json:"work"`
 	HWork []*int `json:"hwork,omitempty"` // inetaf only: work on the https child
+	// tcp/sni/inetaf: connections whose handler is still dialling a black-holed upstream (DialTimeout 30 s, as
+	// fabio's default) when shutdown begins. Closing the inbound connection does not unblock such a handler.
+	Dial int `json:"dial,omitempty"`
 }
 
 type ScenarioIn struct {
@@ -55,6 +59,7 @@ type ScenarioIn struct {
 type SrvOut struct {
 	Work  []string `json:"work"`
 	HWork []string `json:"hwork"`
+	Dial  []string `json:"dial"`
 }
 
 type ScenarioOut struct {
@@ -82,9 +87,15 @@ func (in *ScenarioIn) validate() error {
 			if len(s.HWork) > 0 {
 				return errors.New("hwork on a single-listener server")
 			}
+			if s.Dial != 0 && s.Kind != "tcp" && s.Kind != "sni" {
+				return errors.New("pending dials only on tcp listeners")
+			}
 		case "inetaf":
 		default:
 			return fmt.Errorf("unknown kind %q", s.Kind)
+		}
+		if s.Dial < 0 || s.Dial > 4 {
+			return errors.New("dial outside [0,4]")
 		}
 		if len(s.Work)+len(s.HWork) > 8 {
 			return errors.New("too much work on one server")
@@ -197,6 +208,9 @@ type server struct {
 	kind string
 	addr string
 	errc chan error
+	// tcp handlers: when toBlackhole is set, Lookup answers with the black-holed upstream; lookups counts them
+	toBlackhole atomic.Bool
+	lookups     atomic.Int32
 }
 
 func startServer(kind string, u *upstreams) (*server, error) {
@@ -207,9 +221,17 @@ func startServer(kind string, u *upstreams) (*server, error) {
 	s := &server{kind: kind, addr: addr, errc: make(chan error, 1)}
 	l := config.Listen{Addr: addr}
 	gopts := grpcProxyOpts(u)
+	bh, _ := blackhole() // "" when the host cannot build one; scenarios with pending dials then fail to set up
 	fixed := func(a string) func(string) *route.Target {
-		return func(string) *route.Target { return &route.Target{URL: &url.URL{Host: a}} }
+		return func(string) *route.Target {
+			if s.toBlackhole.Load() {
+				s.lookups.Add(1)
+				return &route.Target{URL: &url.URL{Host: bh}}
+			}
+			return &route.Target{URL: &url.URL{Host: a}}
+		}
 	}
+	const dialTimeout = 30 * time.Second // config default of proxy.dialtimeout
 	httpProxy := func() *proxy.HTTPProxy {
 		return &proxy.HTTPProxy{
 			Transport: &http.Transport{},
@@ -224,15 +246,15 @@ func startServer(kind string, u *upstreams) (*server, error) {
 		case "http":
 			err = proxy.ListenAndServeHTTP(l, httpProxy(), nil)
 		case "tcp":
-			err = proxy.ListenAndServeTCP(l, &tcp.Proxy{Lookup: fixed(u.tcpAddr)}, nil)
+			err = proxy.ListenAndServeTCP(l, &tcp.Proxy{DialTimeout: dialTimeout, Lookup: fixed(u.tcpAddr)}, nil)
 		case "sni":
-			err = proxy.ListenAndServeTCP(l, &tcp.SNIProxy{Lookup: fixed(u.tlsAddr)}, nil)
+			err = proxy.ListenAndServeTCP(l, &tcp.SNIProxy{DialTimeout: dialTimeout, Lookup: fixed(u.tlsAddr)}, nil)
 		case "grpc":
 			err = proxy.ListenAndServeGRPC(l, gopts, nil)
 		case "inetaf":
 			tlscfg := &tls.Config{Certificates: []tls.Certificate{u.cert}}
 			m := func(_ context.Context, h string) bool { return h == sniTCPName }
-			err = proxy.ListenAndServeHTTPSTCPSNI(l, httpProxy(), &tcp.SNIProxy{Lookup: fixed(u.tlsAddr)}, tlscfg, m)
+			err = proxy.ListenAndServeHTTPSTCPSNI(l, httpProxy(), &tcp.SNIProxy{DialTimeout: dialTimeout, Lookup: fixed(u.tlsAddr)}, tlscfg, m)
 		}
 		s.errc <- err
 	}()
@@ -340,6 +362,26 @@ func startWork(kind string, https bool, addr string, it *item) {
 	}
 }
 
+// startDial opens a connection whose handler will get stuck dialling the black hole. The client's view: the
+// connection stays silent until the proxy closes it.
+func startDial(kind, addr string, it *item) {
+	go func() {
+		c, err := net.DialTimeout("tcp", addr, 2*time.Second)
+		if err != nil {
+			it.set("cut", "dial: "+err.Error())
+			return
+		}
+		defer c.Close()
+		if kind == "tcp" {
+			io.WriteString(c, it.id+"\n")
+			_, err = c.Read(make([]byte, 1))
+		} else { // the SNI proxies dial after they have read the ClientHello
+			err = tls.Client(c, &tls.Config{ServerName: sniTCPName, InsecureSkipVerify: true}).Handshake()
+		}
+		it.set("cut", fmt.Sprint(err))
+	}()
+}
+
 type workRef struct {
 	it  *item
 	end *int
@@ -366,7 +408,7 @@ func runOnce(in *ScenarioIn) (*ScenarioOut, error) {
 	out := &ScenarioOut{Attempts: 1, Servers: []SrvOut{}}
 	var srvs []*server
 	var all []workRef
-	perSrv := make([][2][]workRef, len(in.Servers))
+	perSrv := make([][3][]workRef, len(in.Servers))
 	cleanup := func() {
 		for _, w := range all {
 			w.it.Release()
@@ -408,6 +450,35 @@ func runOnce(in *ScenarioIn) (*ScenarioOut, error) {
 		}
 	}
 	time.Sleep(20 * time.Millisecond) // let the "ack"/first message travel back through the proxy
+	// now the connections that get stuck in the upstream dial: from here on the tcp handlers are routed to the
+	// black hole; wait until every one of them has looked its target up, i.e. is about to dial
+	for i, si := range in.Servers {
+		if si.Dial == 0 {
+			continue
+		}
+		if bh, err := blackhole(); err != nil || bh == "" {
+			cleanup()
+			return nil, fmt.Errorf("black hole: %v", err)
+		}
+		srvs[i].toBlackhole.Store(true)
+		for j := 0; j < si.Dial; j++ {
+			w := workRef{newItem(), nil}
+			all = append(all, w)
+			perSrv[i][2] = append(perSrv[i][2], w)
+			startDial(si.Kind, srvs[i].addr, w.it)
+		}
+		until := time.Now().Add(5 * time.Second)
+		for int(srvs[i].lookups.Load()) < si.Dial {
+			if time.Now().After(until) {
+				cleanup()
+				return nil, fmt.Errorf("%s: only %d of %d handlers reached their upstream dial", si.Kind, srvs[i].lookups.Load(), si.Dial)
+			}
+			time.Sleep(5 * time.Millisecond)
+		}
+	}
+	if len(all) > 0 {
+		time.Sleep(30 * time.Millisecond)
+	}
 
 	wait := time.Duration(in.Wait) * time.Millisecond
 	t0 := time.Now()
@@ -458,7 +529,10 @@ func runOnce(in *ScenarioIn) (*ScenarioOut, error) {
 		out.Dur = "deadline"
 	}
 	for i := range in.Servers {
-		so := SrvOut{Work: []string{}, HWork: []string{}}
+		so := SrvOut{Work: []string{}, HWork: []string{}, Dial: []string{}}
+		for _, w := range perSrv[i][2] {
+			so.Dial = append(so.Dial, w.it.get())
+		}
 		for _, w := range perSrv[i][0] {
 			so.Work = append(so.Work, w.it.get())
 		}
